@@ -57,7 +57,25 @@ func (NetH) Prepare(t *testing.T, c *hx.Case) {
 	nc := &NetCfg{}
 	if json.Unmarshal(c.Cfg, nc) == nil {
 		ensureTemplate(&nc.Cfg, &hx.Outcome{})
+		if usesKit(c.Ops) {
+			l, tip := newLedger(&nc.Cfg)
+			m := &ledger.Miner{L: l, W: ledger.NewWallet(walletSeed, walletKeys), R: hx.NewRng(1)}
+			registerPrefixScripts(m.W, false)
+			if b := kitBlock(l, tip, m); b != nil {
+				ensureKit(b)
+			}
+		}
 	}
+}
+
+func usesKit(ops []json.RawMessage) bool {
+	for _, raw := range ops {
+		var m NetMsg
+		if json.Unmarshal(raw, &m) == nil && (strings.HasPrefix(m.Kind, "kit-") || m.Kind == "cb-collide" || m.Kind == "blk-kit") {
+			return true
+		}
+	}
+	return false
 }
 
 var netCmds = []string{"version", "verack", "addr", "inv", "getdata", "notfound", "getblocks", "getheaders", "headers", "tx", "block",
@@ -117,7 +135,21 @@ func (NetH) Gen(prop string, seed uint64, tier string) *hx.Case {
 			}
 			for round := 0; round < 1+r.Intn(3); round++ {
 				noise()
-				switch r.Pick(30, 15, 20, 15, 20) {
+				switch r.Pick(30, 15, 20, 15, 20, 8) {
+				case 5: // two relayed transactions share a short id under the announcement's key
+					k := []string{"kit-tx1", "kit-tx2"}
+					if r.Chance(0.5) {
+						k[0], k[1] = k[1], k[0]
+					}
+					add("tx", k[0])
+					if r.Chance(0.85) {
+						add("tx", k[1])
+					}
+					noise()
+					add("cmpctblock", "cb-collide")
+					if r.Chance(0.5) {
+						slow("block", "blk-kit")
+					}
 				case 4: // headers first; the node asks for the block with getdata; the peer answers with the block, or with something else
 					add("headers", "hdr-new")
 					switch r.Intn(6) {
@@ -285,6 +317,8 @@ type netRun struct {
 	pend    [64][32]byte
 	npend   int
 	plans   map[int]*cbPlan // per peer: the block of the compact-block conversation in progress
+	kit     *sidKit
+	kitBlk  *ledger.Block
 	cver    map[int]int     // per peer: compact-block version announced with sendcmpct
 }
 
@@ -560,6 +594,37 @@ func (n *netRun) convPayload(m *NetMsg, r *hx.Rng) (pl []byte, ok bool) {
 		n.plans, n.cver = map[int]*cbPlan{}, map[int]int{}
 	}
 	switch m.Kind {
+	case "kit-tx1", "kit-tx2", "cb-collide", "blk-kit":
+		if n.kit == nil {
+			return nil, false
+		}
+		switch m.Kind {
+		case "kit-tx1":
+			return n.kit.tx1, true
+		case "kit-tx2":
+			return n.kit.tx2, true
+		case "blk-kit":
+			return n.kitBlk.Bytes(), true
+		}
+		// the announcement: the coinbase in full, the colliding id (and perhaps a few unknown ones) as short ids
+		var w bytes.Buffer
+		w.Write(n.kitBlk.H.Bytes())
+		w.Write(n.kit.nonce)
+		extra := r.Intn(3)
+		at := r.Intn(extra + 1)
+		w.Write(vint(uint64(extra + 1)))
+		for i := 0; i <= extra; i++ {
+			if i == at {
+				w.Write(n.kit.sid)
+			} else {
+				w.Write(r.Bytes(6))
+			}
+		}
+		w.Write(vint(1))
+		w.Write(vint(0))
+		w.Write(n.kitBlk.Txs[0].Bytes(true))
+		n.out.Probe("cmpctblock_with_colliding_short_ids", 1)
+		return w.Bytes(), true
 	case "hdr-empty":
 		return vint(0), true
 	case "hdr-new":
@@ -1057,6 +1122,12 @@ func (NetH) Run(t *testing.T, c *hx.Case) *hx.Outcome {
 	}
 	n.m = &ledger.Miner{L: n.l, W: ledger.NewWallet(walletSeed, walletKeys), R: hx.NewRng(1)}
 	registerPrefixScripts(n.m.W, false)
+	if usesKit(c.Ops) {
+		if n.kitBlk = kitBlock(n.l, tip, n.m); n.kitBlk != nil {
+			n.kit = ensureKit(n.kitBlk)
+			n.l.Add(n.kitBlk, 1<<40)
+		}
+	}
 	viol := func(class, format string, a ...any) {
 		out.Violate("C18", class, format, a...)
 		n.bad = true
